@@ -226,6 +226,10 @@ func (e *exec) maybeFault(prios []uint, dividend uint, dist map[uint]uint, eligi
 	e.mu.Lock()
 	e.divEligible++
 	hit := e.divEligible == f.Call && e.tr.FaultCall == 0
+	if f.AfterGStop {
+		// state-triggered: the first eligible call made once the graceful stop has been requested
+		hit = e.gstopAsked && e.tr.FaultCall == 0
+	}
 	e.mu.Unlock()
 	if !hit {
 		return
@@ -969,6 +973,12 @@ func (e *exec) doOp(op Op) {
 		}
 		e.gracefulStop()
 		e.wait()
+		if op.N == 2 {
+			// a second GracefulStop() while the first one is pending ("request" from one goroutine,
+			// "wait for it" from another): it, too, may only return once termination is complete
+			e.gracefulStop()
+			e.wait()
+		}
 	case "S", "K":
 		if e.ad.stop == nil || e.stopIssued {
 			noop()
